@@ -35,6 +35,13 @@ DISCM = "msmart.discover."
 CLOUDM = "msmart.cloud."
 
 PROPS = {
+    "C01": {"targets": ["C01.spec_decoders_invert", "msmart.lan._LanProtocol.data_received#v2_segmentation",
+                        (AC + ".apply", r"c10\.|control_first|noraise"), CMD + "SetStateCommand.tobytes", CMD + "Command.tobytes", "msmart.frame.Frame.tobytes",
+                        AC + "._send_command_get_responses", DEVB + "._send_command#transport", LANC + ".send", LANC + "._read",
+                        LANM + "_Packet.encode", LANM + "_Packet.decode", LANM + "_Packet.decode#interop",
+                        V3 + "._encode_encrypted_request", V3 + "._process_packet#interop", V3 + ".write", V3 + ".data_received",
+                        CMD + "Response.construct", CMD + "StateResponse.__init__", AC + "._update_state", AC + ".refresh#one_state_response"],
+            "level": "proof"},
     "C19": {"targets": [CLOUDM + "BaseCloud.get_token", CLOUDM + "BaseCloud._post_request", CLOUDM + "NetHomePlusCloud._parse_response",
                         "msmart.lan.Security.udpid", DISCM + "Discover._authenticate_device"],
             "level": "proof"},
